@@ -268,6 +268,40 @@ impl F {
         }
     }
 
+    /// Alpha-renaming binder by binder: every quantifier gets a name of its own from `pool` (different from the
+    /// names in scope at that point), so sibling scopes that shared a name end up with different ones. Free
+    /// variables keep their names. Returns `None` if the pool runs out.
+    pub fn rename_per_binder(&self, rng: &mut Rng, pool: &[String]) -> Option<F> {
+        fn go(f: &F, env: &mut Vec<(String, String)>, rng: &mut Rng, pool: &[String]) -> Option<F> {
+            Some(match f {
+                F::Var(v) => F::Var(env.iter().rev().find(|(o, _)| o == v).map(|(_, n)| n.clone()).unwrap_or_else(|| v.clone())),
+                F::Un(op, a) => un(*op, go(a, env, rng, pool)?),
+                F::Bin(op, a, b) => {
+                    let l = go(a, env, rng, pool)?;
+                    let r = go(b, env, rng, pool)?;
+                    bin(*op, l, r)
+                }
+                F::Hyb(Hyb::Jump, v, d, a) => {
+                    let target = env.iter().rev().find(|(o, _)| o == v).map(|(_, n)| n.clone()).unwrap_or_else(|| v.clone());
+                    F::Hyb(Hyb::Jump, target, d.clone(), Box::new(go(a, env, rng, pool)?))
+                }
+                F::Hyb(op, v, d, a) => {
+                    let free: Vec<&String> = pool.iter().filter(|p| !env.iter().any(|(o, n)| n == *p || o == *p)).collect();
+                    if free.is_empty() {
+                        return None;
+                    }
+                    let n = (*rng.pick(&free)).clone();
+                    env.push((v.clone(), n.clone()));
+                    let body = go(a, env, rng, pool);
+                    env.pop();
+                    F::Hyb(*op, n, d.clone(), Box::new(body?))
+                }
+                other => other.clone(),
+            })
+        }
+        go(self, &mut Vec::new(), rng, pool)
+    }
+
     /// Is this `!{v}: AG EF {v}` (without a domain)?
     pub fn is_attractor_pattern(&self) -> bool {
         if let F::Hyb(Hyb::Bind, v, None, a) = self {
